@@ -195,3 +195,58 @@ Qed.
 (* the contract assumed of the decoders that are not modelled is satisfiable *)
 Example no_other_consumes : forall f r c c', no_other f r c = Some c' -> len c' < len c.
 Proof. intros; discriminate. Qed.
+
+(* ---- every family the crate can negotiate is modelled: the decoder of "other" families is
+   never called, so try_parse does not depend on it *)
+Lemma nlri_decode_other o1 o2 fam r c n : nlri_decode o1 fam r c n = nlri_decode o2 fam r c n.
+Proof. unfold nlri_decode, is_other_family. cbn [andb]. reflexivity. Qed.
+
+Lemma path_nlri_decode_other o1 o2 fam ap r c : path_nlri_decode o1 fam ap r c = path_nlri_decode o2 fam ap r c.
+Proof. unfold path_nlri_decode. rewrite !(nlri_decode_other o1 o2). reflexivity. Qed.
+
+Lemma nlri_list_fuel_other o1 o2 : forall fuel fam ap r c acc,
+  nlri_list_fuel o1 fuel fam ap r c acc = nlri_list_fuel o2 fuel fam ap r c acc.
+Proof.
+  induction fuel as [|f IH]; intros; destruct c as [|b c]; cbn [nlri_list_fuel]; try reflexivity.
+Qed.
+
+Lemma nlri_list_other o1 o2 fam ap r c : nlri_list o1 fam ap r c = nlri_list o2 fam ap r c.
+Proof. unfold nlri_list. apply nlri_list_fuel_other. Qed.
+
+Lemma parse_update_other o1 o2 cd hdr frame : parse_update o1 cd hdr frame = parse_update o2 cd hdr frame.
+Proof.
+  unfold parse_update, upd_mp_reach, upd_mp_unreach.
+  repeat (rewrite !(nlri_list_other o1 o2)). reflexivity.
+Qed.
+
+Lemma try_parse_other o1 o2 p cd src : try_parse o1 p cd src = try_parse o2 p cd src.
+Proof. reflexivity. Qed.
+
+Section AllFamilies.
+  Variable other : N -> bool -> list N -> option (list N).
+  Let noc := no_other_consumes.
+
+  Theorem C03_bgp_all_no_panic p cd : never_panics (try_parse other p cd).
+  Proof. intros src. rewrite (try_parse_other other no_other). apply (C03_bgp_parse_no_panic no_other noc). Qed.
+
+  Theorem C03_bgp_all_consumes p cd : consumes_input (try_parse other p cd).
+  Proof. intros src m rest. rewrite (try_parse_other other no_other). apply (C03_bgp_parse_consumes no_other noc). Qed.
+
+  Theorem C03_bgp_all_complete_frame_decided p cd :
+    complete_frame_decided (try_parse other p cd) (bgp_complete (max_len cd)).
+  Proof. intros src rest. rewrite (try_parse_other other no_other). apply (C03_bgp_complete_frame_decided no_other noc). Qed.
+
+  Theorem C03_bgp_all_need_only_if_incomplete p cd :
+    need_only_if_incomplete (try_parse other p cd) (bgp_complete (max_len cd)).
+  Proof. intros src rest. rewrite (try_parse_other other no_other). apply (C03_bgp_need_only_if_incomplete no_other noc). Qed.
+
+  Theorem C03_bgp_all_fragmentation_invariant p cd : fragmentation_invariant (try_parse other p cd).
+  Proof.
+    refine (stream_fragmentation_invariant (try_parse other p cd) _ _ _ _ _).
+    - exact (C03_bgp_all_no_panic p cd).
+    - intros buf m rest H. exact (proj1 (C03_bgp_all_consumes p cd buf m rest H)).
+    - intros buf m rest ext. rewrite !(try_parse_other other no_other). exact (proj1 (try_parse_ext no_other noc p cd buf ext) m rest).
+    - intros buf e rest ext. rewrite !(try_parse_other other no_other). exact (proj2 (try_parse_ext no_other noc p cd buf ext) e rest).
+    - intros buf rest ext. rewrite !(try_parse_other other no_other). intro H. rewrite (try_parse_need _ _ _ _ _ H). reflexivity.
+  Qed.
+End AllFamilies.
